@@ -83,17 +83,22 @@ def check_relations(seeds):
         subsets = [c for n in range(1, len(obits) + 1) for c in itertools.combinations(obits, n)]
         if len(subsets) > 12:
             subsets = rnd.sample(subsets, 12)
-        for req in subsets:
+        for ri, req in enumerate(subsets):
             name = f'make_functions #{seed} outputs={",".join(req)}'
-            sample = dict(decl=decl, relation=s, outputs=list(req), restrict_path=restrict_path)
+            as_set = ri % 2 == 1
+            sample = dict(decl=decl, relation=s, outputs=list(req), restrict_path=restrict_path, container='set' if as_set else 'list')
             t1 = time.time()
             try:
-                fns = fcn.make_functions(r, list(req), ctx.bdd)
+                # the caller's container (a list, or a set for every other subset) is handed over twice: the second
+                # answer, for the same container object, is the one that is checked
+                arg = set(req) if as_set else list(req)
+                fcn.make_functions(r, arg, ctx.bdd)
+                fns = fcn.make_functions(r, arg, ctx.bdd)
             except Exception as e:  # noqa
                 out.append(core.res(name, 'violation', sample=sample, nontrivial=True, functions=FUNCS,
                                     signature=f'make_functions:{type(e).__name__}',
                                     detail=f'{s!r}, outputs {req}: raised {type(e).__name__}: {e}',
-                                    cex=dict(seed=seed, outputs=list(req))))
+                                    cex=dict(seed=seed, outputs=list(req), as_set=as_set)))
                 continue
             order = list(fns)
             G = {y: exp.export(fns[y]['function']) for y in order}
@@ -148,7 +153,7 @@ def check_relations(seeds):
                 out.append(core.res(name, 'inconclusive', queries=q, solver_s=dt, sample=sample, detail=f'{label}: {r_}'))
                 continue
             sigma = link.model_values(m, ctx.vars, bits)
-            cex = dict(seed=seed, outputs=list(req), sigma=sigma, label=label)
+            cex = dict(seed=seed, outputs=list(req), sigma=sigma, label=label, as_set=as_set)
             ok, why = replay(dict(cex=cex))
             out.append(core.res(name, 'violation' if ok else 'inconclusive', queries=q, solver_s=dt, sample=sample,
                                 nontrivial=True, functions=FUNCS, signature='make_functions:' + label.split(' ')[0],
@@ -170,7 +175,9 @@ def replay(payload):
     r = ctx.add_expr(sem.to_str(tree))
     req = c['outputs']
     try:
-        fns = fcn.make_functions(r, list(req), ctx.bdd)
+        arg = set(req) if c.get('as_set') else list(req)
+        fcn.make_functions(r, arg, ctx.bdd)
+        fns = fcn.make_functions(r, arg, ctx.bdd)
     except Exception as e:  # noqa
         return True, f'raised {type(e).__name__}: {e}'
     bdd = ctx.bdd
